@@ -1,6 +1,7 @@
 (* Props/C04.v — Equality and ordering obey their laws; sort/min/max agree with them. *)
 From Coq Require Import ZArith List Bool Sorting.Permutation Sorting.Sorted.
 From Flocq Require Import IEEE754.BinarySingleNaN.
+From Coq Require Import Floats.SpecFloat.
 From Rscel Require Import Base.Prims Base.F64 Model.Value Model.Ops Model.Funcs Spec.Wf.
 From Rscel Require Import Proofs.F64Facts Proofs.OpsOrder Proofs.EqMaps Proofs.EqSym Proofs.MinMax.
 Import ListNotations.
@@ -156,3 +157,21 @@ Theorem C04_max_ints_first_greatest : forall z zs,
     (forall v, In v (z :: zs) -> v <= m) /\ (forall v, In v pre -> v < m).
 Proof. exact max_ints_first_greatest. Qed.
 Print Assumptions C04_max_ints_first_greatest.
+
+(** the infinities are the ends of the order of doubles: every double that is not a NaN lies strictly
+    between them (stated on the stored representation, no real numbers involved) *)
+Theorem C04_ord_double_infinities : forall x : f64, f64_is_nan x = false ->
+  (x <> S754_infinity false -> ord (VFloat x) (VFloat (S754_infinity false)) = inl (Some Lt) /\
+                               ord (VFloat (S754_infinity false)) (VFloat x) = inl (Some Gt)) /\
+  (x <> S754_infinity true -> ord (VFloat (S754_infinity true)) (VFloat x) = inl (Some Lt) /\
+                              ord (VFloat x) (VFloat (S754_infinity true)) = inl (Some Gt)) /\
+  ord (VFloat (S754_infinity false)) (VFloat (S754_infinity false)) = inl (Some Eq) /\
+  ord (VFloat (S754_infinity true)) (VFloat (S754_infinity true)) = inl (Some Eq).
+Proof. exact ord_double_infinities. Qed.
+Print Assumptions C04_ord_double_infinities.
+
+Theorem C04_lt_infinities : forall x : f64, f64_is_nan x = false -> x <> S754_infinity false -> x <> S754_infinity true ->
+  lt (VFloat (S754_infinity true)) (VFloat x) = VBool true /\ lt (VFloat x) (VFloat (S754_infinity false)) = VBool true /\
+  gt (VFloat x) (VFloat (S754_infinity false)) = VBool false /\ lt (VFloat x) (VFloat (S754_infinity true)) = VBool false.
+Proof. exact lt_infinities. Qed.
+Print Assumptions C04_lt_infinities.
